@@ -75,6 +75,37 @@ func init() {
 			}
 		}})
 
+	register(&Rule{ID: "F.tolerances", Props: []string{"C05", "C04", "C03"}, Floor: 3,
+		Doc: "the acceptance conditions of ValidateDelegatedAmount (full-exit tolerance, rejection threshold, cap) have the reviewed form",
+		Run: func(e *Engine, r *RuleRun) {
+			fn := r.Need("keeper.Keeper.ValidateDelegatedAmount")
+			if fn == nil {
+				return
+			}
+			fa := e.FA(fn)
+			var conds []string
+			for _, b := range fn.Blocks {
+				if iff, ok := lastInstr(b).(*ssa.If); ok {
+					conds = append(conds, ordinalRe.ReplaceAllString(fa.Term(iff.Cond).String(), ""))
+				}
+			}
+			need := "types.GetDelegationSharesFromTokens"
+			want := []struct{ what, cond, why string }{
+				{"full-exit tolerance", "math.LegacyDec.LT(math.LegacyDec.Abs(math.LegacyDec.Sub($delegation.Shares, " + need + ")), types.Rounder)", "a request within the rounding epsilon of the whole position withdraws all of its shares"},
+				{"rejection threshold", "math.LegacyDec.LT($delegation.Shares, math.LegacyDec.TruncateDec(" + need + "))", "a request is rejected only when the position holds less than the whole-share part of what it needs (the reported balance is rounded up by the same epsilon, so the fractional excess must be tolerated)"},
+				{"cap at the position's shares", "math.LegacyDec.GT(" + need + ", $delegation.Shares)", "the shares removed never exceed what the position holds"},
+			}
+			for _, w := range want {
+				found := false
+				for _, c := range conds {
+					if c == w.cond {
+						found = true
+					}
+				}
+				r.Check(found, FuncKey(fn), "tolerance: "+w.what, w.cond, "the condition `"+w.cond+"` is gone ("+w.why+"); conditions now: "+strings.Join(conds, " ; "), e.Pos(fn.Pos()))
+			}
+		}})
+
 	register(&Rule{ID: "C13.split", Props: []string{"C13", "C12"}, Floor: 4,
 		Doc: "reward split: per-asset staked weight, normalisation, per-token index increment and payout have the reviewed operator trees",
 		Run: func(e *Engine, r *RuleRun) {
